@@ -49,7 +49,8 @@ def cases(draw):
             base["A"] = [row + [0.5] for row in base["A"]]
         base["npt"] = 3
     mag = 10.0 ** draw(st.integers(-1, 1))
-    z = [sc.dec(draw(sc.g10) * mag) for _ in range(n)]
+    zs = draw(st.sampled_from([1.0, 1.0, 0.1, 0.01]))       # centres near zero too: bounds then differ from x0 by large factors (no exact subtraction)
+    z = [sc.dec(draw(sc.g10) * mag * zs) for _ in range(n)]
     base["proj"] = draw(sc.draw_sets(n, z, mag))
     tags = []
     if draw(st.booleans()):
@@ -100,10 +101,22 @@ def cases(draw):
                 lo_t = mid
         xb = zz + lo_t * dirn
         x0 = xb if xc == "boundary" else xb + dirn * 1e-7 * max(1.0, float(np.max(np.abs(xb))))
-    base["x0"] = [float(v) for v in x0]
-    tags.append("x0:" + xc)
     base["npt"] = n + 1
     rb = mag * draw(st.sampled_from([0.05, 0.1, 0.3]))
+    if has_bounds(base) and draw(st.integers(0, 3)) == 0:
+        # one coordinate on / a hair or a fraction of rhobeg inside / outside a finite bound (the placement classes of C01/C14):
+        # initial coordinate steps are then clipped onto the bound
+        bx = box_spec(base)
+        i = draw(st.integers(0, n - 1))
+        side = draw(st.sampled_from(["l", "u"]))
+        bval = bx["l"][i] if side == "l" else bx["u"][i]
+        if abs(bval) < 1e19:
+            f = draw(st.sampled_from([0.0, 0.005, 0.011, 0.5, 0.99, -0.3]))
+            x0 = np.array(x0, dtype=float)
+            x0[i] = bval + (f * rb if side == "l" else -f * rb)
+            xc = xc + "+near-bound"
+    base["x0"] = [float(v) for v in x0]
+    tags.append("x0:" + xc)
     base["rhobeg"] = rb
     base["rhoend"] = rb * 10.0 ** (-draw(st.sampled_from([2, 3, 5])))
     base["maxfun"] = draw(st.sampled_from([n + 2, 12, 25, 40]))
